@@ -134,6 +134,7 @@ theorem exEntry : Entry exCfg exMem exSt where
   rsp := by decide +kernel
   mem := exMemRel
   sentinel := by decide +kernel
+  room := ⟨exLower, rfl, by decide +kernel⟩
 
 /-! ### the run, from any register file -/
 
@@ -376,7 +377,7 @@ theorem exExtOk : ExtOk exCfgC exEnvC exHaddr := by
 
 /-- the same entry state and memory as in the first example (the stack is 16-byte aligned, as the ABI has it) -/
 theorem exEntryC : Entry exCfgC exMem exSt :=
-  ⟨exEntry.rip, exEntry.rdi, exEntry.rsi, exEntry.rdx, exEntry.rsp, exEntry.mem, exEntry.sentinel⟩
+  ⟨exEntry.rip, exEntry.rdi, exEntry.rsi, exEntry.rdx, exEntry.rsp, exEntry.mem, exEntry.sentinel, exEntry.room⟩
 
 /-- whatever r0, r2 … r9 hold at entry and whatever the helper leaves in r1 … r5, seven steps return 42, leave the memory
     untouched and have called helper 1 with (5, 6, 7, 8, 9) -/
@@ -429,7 +430,7 @@ theorem C03_x86_calls_example :
       σ'.log.map (·.2) = [[5#64, 6#64, 7#64, 8#64, 9#64]] ∧ σ'.misaligned = 0 := by
   obtain ⟨s', hint, hmem, hlog⟩ := exInterpC
   have h := C03_x86_calls exEnvC exHaddr false exCfgC exLocsC exExitC exMem exSt 10 42#64 s'
-    exCheckC exCompileC exExtOk exCoveredC exNoLocalCallC exNoF7C
+    exCheckC exCompileC exExtOk exNoLocalCallC exNoF7C
     (by decide +kernel) (Or.inr (by decide +kernel)) exEntryC rfl (by decide +kernel) (fun _ => rfl) (fun _ => rfl)
     exClobIndep hint
   rw [hmem, hlog] at h
